@@ -114,3 +114,88 @@ pub fn hex(bytes: &[u8]) -> String {
 pub fn unhex(s: &str) -> Vec<u8> {
     (0..s.len() / 2).map(|i| u8::from_str_radix(&s[2 * i..2 * i + 2], 16).unwrap()).collect()
 }
+
+/// Corpus of valid statements; every token is separated by exactly one space (strings may contain spaces), so that
+/// token-level mutation and layout variation can be done by the harness without a tokenizer of its own.
+pub fn statement_corpus() -> Vec<&'static str> {
+    vec![
+        "SELECT * FROM t",
+        "SELECT input FROM t",
+        "SELECT k , v FROM t ;",
+        "SELECT k AS key , v + 1 AS next FROM t WHERE v > 1",
+        "SELECT DISTINCT k FROM t WHERE v IS NOT NULL",
+        "SELECT k FROM t WHERE v IS NULL OR k = 'a'",
+        "SELECT k FROM t WHERE v >= 1 AND v <= 3 AND v != 2",
+        "SELECT k FROM t WHERE NOT b",
+        "SELECT k FROM t WHERE v IN ( 1 , 2 , 3 )",
+        "SELECT k FROM t WHERE k NOT IN ( 'a' , 'b' )",
+        "SELECT v * 2 - 1 , v / 2 , - v FROM t",
+        "SELECT ( v + 1 ) * 2 FROM t LIMIT 3",
+        "SELECT v :: text , s :: int , r :: real FROM t",
+        "SELECT a [ 1 ] , array_length ( a ) FROM t",
+        "SELECT ARRAY [ v , 1 ] FROM t",
+        "SELECT t . k , t . v FROM t",
+        "SELECT upper ( k ) , lower ( s ) , length ( s ) FROM t",
+        "SELECT greatest ( v , 2 ) , least ( r , 1.5 ) , abs ( v ) , sqrt ( r ) , pow ( r , 2.0 ) FROM t",
+        "SELECT regexp_matches ( s , '^a.*' ) FROM t",
+        "SELECT array_unique ( a ) , array_cat ( a , a ) , array_append ( a , 1 ) , array_prepend ( 1 , a ) FROM t",
+        "SELECT EXTRACT ( year FROM ts ) , EXTRACT ( EPOCH FROM ts ) FROM t",
+        "SELECT date_trunc ( 'hour' , ts ) , now ( ) FROM t",
+        "SELECT make_timestamp ( 2021 , 1 , 2 , 3 , 4 , 5 , 6 , 0 ) FROM t",
+        "SELECT CASE WHEN v > 1 THEN 'big' ELSE 'small' END FROM t",
+        "SELECT CASE WHEN v > 2 THEN 'a' WHEN v > 1 THEN 'b' ELSE 'c' END AS c FROM t",
+        "SELECT k FROM t :: 'some file.log'",
+        "SELECT k , COUNT ( * ) FROM t GROUP BY k",
+        "SELECT k , COUNT ( ) AS n , SUM ( v ) , AVG ( r ) FROM t GROUP BY k",
+        "SELECT COUNT ( DISTINCT v ) , MIN ( v ) , MAX ( s ) FROM t",
+        "SELECT k , STDDEV ( v ) , VARIANCE ( r ) , PERCENTILE ( v , 0.5 ) FROM t GROUP BY k",
+        "SELECT k , BOOL_AND ( b ) , BOOL_OR ( b ) , ARRAY_AGG ( v ) , STRING_AGG ( s , ', ' ) FROM t GROUP BY k",
+        "SELECT k , SUM ( v ) * 2 FROM t GROUP BY k HAVING COUNT ( * ) > 1",
+        "SELECT k , b , COUNT ( * ) FROM t WHERE v > 0 GROUP BY k , b HAVING k IS NOT NULL AND COUNT ( * ) >= 1 LIMIT 5",
+        "SELECT upper ( k ) , COUNT ( * ) FROM t GROUP BY upper ( k )",
+        "SELECT DISTINCT COUNT ( * ) FROM t GROUP BY k",
+        "SELECT t . k , y FROM t INNER JOIN u :: 'other.log' ON t . k = u . k",
+        "SELECT t . k , y FROM t OUTER JOIN u :: 'other.log' ON u . k = t . k WHERE y > 1 LIMIT 2",
+        "SELECT t . k , COUNT ( * ) FROM t INNER JOIN u :: 'other.log' ON t . k = u . k GROUP BY t . k",
+        "CREATE TABLE t ( line = '([a-z]+) ([0-9]+)' , line [ 1 ] => k TEXT , line [ 2 ] => v INT ) ;",
+        "CREATE TABLE t ( line = split ';' , line [ 1 ] => k TEXT NOT NULL , line [ 2 ] => v INT DEFAULT 7 , line [ 3 ] => s TEXT TRIM ) ;",
+        "CREATE TABLE t ( 'id=([0-9]+)' => id INT , 'name=(\\\\w+)' => name TEXT DEFAULT 'x' ) ;",
+        "CREATE TABLE t ( line = match '(\\\\d+)-(\\\\d+)-(\\\\d+)' , line [ 1 ] , line [ 2 ] , line [ 3 ] => d TIMESTAMP , line [ 1 ] , line [ 2 ] => a INT [ ] ) ;",
+        "CREATE TABLE t ( { . a . b } => x INT , { . c [ 0 ] } => y TEXT CONVERT , { [ 1 ] . d } => z REAL [ ] , { . ts } => ts TIMESTAMP CONVERT ) ;",
+        "CREATE TABLE t ( line = '(a)(b)?' , line [ 2 ] => b BOOLEAN , line [ 1 ] , line [ 2 ] => ts TIMESTAMP MICROSECONDS , line [ 1 ] => i INTERVAL ) ;",
+        "CREATE TABLE a ( x = '(.)' , x [ 1 ] => c TEXT ) ; CREATE TABLE b ( y = '(.)' , y [ 1 ] => d TEXT ) ;",
+    ]
+}
+
+/// split a corpus statement into its tokens (spaces outside single-quoted strings)
+pub fn corpus_tokens(s: &str) -> Vec<String> {
+    let mut out = Vec::new();
+    let mut cur = String::new();
+    let mut in_str = false;
+    let mut esc = false;
+    for c in s.chars() {
+        if in_str {
+            cur.push(c);
+            if esc {
+                esc = false;
+            } else if c == '\\' {
+                esc = true;
+            } else if c == '\'' {
+                in_str = false;
+            }
+        } else if c == ' ' {
+            if !cur.is_empty() {
+                out.push(std::mem::take(&mut cur));
+            }
+        } else {
+            if c == '\'' {
+                in_str = true;
+            }
+            cur.push(c);
+        }
+    }
+    if !cur.is_empty() {
+        out.push(cur);
+    }
+    out
+}
